@@ -14,7 +14,8 @@
 (* evict the lowest when MaxObs is reached, the newest entry keeps its feature   *)
 (* only if it meets the collect thresholds (a new track keeps it anyway).        *)
 EXTENDS Tracker
-CONSTANTS Feats, Quals, MaxObs, MinTrackLen, MinVotes, QUse, QCollect, VisThr
+CONSTANTS Feats, Quals, MaxObs, MinTrackLen, MinVotes, QUse, QCollect, VisThr,
+          OwnUse, OwnCollect   \* minimal exclusively-owned area share (1/100) to use / collect a feature; both 0 = not computed
 
 VDet == [slot : Slots, conf : Confs, cid : Cids, f : Feats \cup {0}, q : Quals]
 (* feature symbols are points: 1 = (0,0), 2 = (3,0), 3 = (0,4); Euclidean distances x 10 *)
@@ -56,11 +57,15 @@ GalleryAllowed(g, f, q, collectable, g2) ==
            (IF e \in DOMAIN b2 THEN b2[e] < b1[e] ELSE TRUE) => e.q <= k.q
 
 (* ---- association ---- *)
-Usable(d) == d.f # 0 /\ d.q >= QUse
-Collectable(d) == d.f # 0 /\ d.q >= QCollect
+(* exclusively-owned share of detection i within its call: slots are disjoint and detections on one slot are the
+   same box, so a detection owns all of its area or (when another detection of the call sits on its slot) none *)
+Share(dets, i) == IF \E j \in DOMAIN dets : j # i /\ dets[j].slot = dets[i].slot THEN 0 ELSE 100
+OwnOn == OwnUse + OwnCollect > 0
+Usable(dets, i) == dets[i].f # 0 /\ dets[i].q >= QUse /\ (OwnOn => Share(dets, i) >= OwnUse)
+Collectable(dets, i) == dets[i].f # 0 /\ dets[i].q >= QCollect /\ (OwnOn => Share(dets, i) >= OwnCollect)
 (* gallery entries of track t whose feature lies within the visual threshold of detection d *)
-Votes(d, t) == IF Usable(d) /\ Collected(t.gal) >= MinTrackLen
-               THEN {j \in DOMAIN t.gal : t.gal[j].f # 0 /\ Dist(d.f, t.gal[j].f) <= VisThr} ELSE {}
+Votes(dets, i, t) == IF Usable(dets, i) /\ Collected(t.gal) >= MinTrackLen
+               THEN {j \in DOMAIN t.gal : t.gal[j].f # 0 /\ Dist(dets[i].f, t.gal[j].f) <= VisThr} ELSE {}
 
 VPredictBody(st, s, dets) ==
   LET e    == st.epoch[s] + 1
@@ -68,10 +73,10 @@ VPredictBody(st, s, dets) ==
       tr   == st.tracks
       rows == 1..Len(dets)
       live == Live(st, s, e)
-      allD == UNION {{Dist(dets[i].f, tr[k].gal[j].f) : j \in Votes(dets[i], tr[k])} : i \in rows, k \in live}
+      allD == UNION {{Dist(dets[i].f, tr[k].gal[j].f) : j \in Votes(dets, i, tr[k])} : i \in rows, k \in live}
       maxSeen == IF allD = {} THEN 0 ELSE MaxOf(allD)
-      claim(i, k) == Votes(dets[i], tr[k]) # {} /\ Cardinality(Votes(dets[i], tr[k])) >= MinVotes
-      w(i, k) == SumSet([j \in DOMAIN tr[k].gal |-> maxSeen - Dist(dets[i].f, tr[k].gal[j].f)], Votes(dets[i], tr[k]))
+      claim(i, k) == Votes(dets, i, tr[k]) # {} /\ Cardinality(Votes(dets, i, tr[k])) >= MinVotes
+      w(i, k) == SumSet([j \in DOMAIN tr[k].gal |-> maxSeen - Dist(dets[i].f, tr[k].gal[j].f)], Votes(dets, i, tr[k]))
       claimers == {i \in rows : \E k \in live : claim(i, k)}
       bestOf(i) == LET ks == {k \in live : claim(i, k)} IN CHOOSE k \in ks : \A k2 \in ks : w(i, k2) <= w(i, k)
       ownerOf(k) == LET is == {i \in rows : claim(i, k)} IN CHOOSE i \in is : \A i2 \in is : w(i2, k) <= w(i, k)
@@ -94,7 +99,7 @@ VPredictBody(st, s, dets) ==
                      [tr[k] EXCEPT !.last = e, !.len = @ + 1, !.cid = dets[i].cid, !.vt = kind(i),
                                    !.ring = Ring(@, <<dets[i].slot, dets[i].conf>>),
                                    !.fh = Ring(@, dets[i].f),
-                                   !.gal = Continue(@, dets[i].f, dets[i].q, Collectable(dets[i]))]
+                                   !.gal = Continue(@, dets[i].f, dets[i].q, Collectable(dets, i))]
                 ELSE tr[k]
       newt(m) == LET i == CHOOSE j \in rows : target(j) = 0 /\ newBefore(j) = m - 1 IN
                  [scene |-> s, slot |-> dets[i].slot, last |-> e, len |-> 1, cid |-> dets[i].cid,
@@ -111,7 +116,7 @@ VPredictBody(st, s, dets) ==
       claimers |-> claimers, vis |-> vis, taken |-> taken, pa |-> pa,
       lost |-> {i \in claimers : vis[i] = 0},
       evicts |-> {k \in DOMAIN tr : (\E i \in rows : target(i) = k) /\ Collected(tr[k].gal) >= MaxObs},
-      refused |-> {i \in rows : target(i) # 0 /\ dets[i].f # 0 /\ ~Collectable(dets[i])},
+      refused |-> {i \in rows : target(i) # 0 /\ dets[i].f # 0 /\ ~Collectable(dets, i)},
       (* C12 stated on the outcome *)
       ok |-> /\ \A i \in claimers : vis[i] # 0 =>
                    /\ claim(i, vis[i])
@@ -121,16 +126,19 @@ VPredictBody(st, s, dets) ==
              /\ \A i1, i2 \in rows : (i1 # i2 /\ target(i1) # 0) => target(i1) # target(i2)
              /\ \A k \in DOMAIN tr : (\E i \in rows : target(i) = k) =>
                    LET i == CHOOSE j \in rows : target(j) = k IN
-                   GalleryAllowed(tr[k].gal, dets[i].f, dets[i].q, Collectable(dets[i]), trs[k].gal)]
+                   GalleryAllowed(tr[k].gal, dets[i].f, dets[i].q, Collectable(dets, i), trs[k].gal)]
 
 VPredict(st, s, dets) == VPredictBody(Prologue(st), s, dets)
 RECURSIVE VBatchBodies(_, _, _)
 VBatchBodies(st, B, todo) ==
-  IF todo = {} THEN [unique |-> TRUE, st |-> st, ret |-> [s \in {} |-> <<>>]]
+  IF todo = {} THEN [unique |-> TRUE, st |-> st, ret |-> [s \in {} |-> <<>>], ok |-> TRUE,
+                     nlost |-> 0, nvis |-> 0, nevicts |-> 0, nrefused |-> 0]
   ELSE LET s == CHOOSE x \in todo : \A y \in todo : x <= y
            b == VPredictBody(st, s, B[s])
            r == VBatchBodies(b.st, B, todo \ {s})
-       IN [unique |-> b.unique /\ r.unique, st |-> r.st,
+       IN [unique |-> b.unique /\ r.unique, st |-> r.st, ok |-> b.ok /\ r.ok,
+           nlost |-> Cardinality(b.lost) + r.nlost, nvis |-> Cardinality(b.claimers) + r.nvis,
+           nevicts |-> Cardinality(b.evicts) + r.nevicts, nrefused |-> Cardinality(b.refused) + r.nrefused,
            ret |-> [x \in DOMAIN r.ret \cup {s} |-> IF x = s THEN b.ret ELSE r.ret[x]]]
 VPredictBatch(st, B) == VBatchBodies(Prologue(st), B, DOMAIN B)
 (* wasted(): as Tracker!Wasted plus the feature history *)
